@@ -79,7 +79,7 @@ CHECKS = {
         "non_intrinsic/two USEs in either order, USE at module level, in the probing procedure or in a nested internal procedure); "
         "the consumer probes every candidate name (type(n), procedure(n) pointer, namelist member, call, function reference); the "
         "object found in each probe slot (recorder on _find_chain_item for calls) is compared with an independent implementation of "
-        "F2008 11.2.2; file enumeration order is injected by wrapping find_all_files (sampled permutations, all in thorough).",
+        "F2008 11.2.2; the order in which files are parsed is injected through the file names (FORD parses in sorted path order; sampled permutations, all in thorough); separate cases use two modules exporting equal names with textually identical ONLY lists.",
         "Trusts imports()/exports() in checks/c06.py as the standard's rule; unique entity names; one known finding (several USE "
         "statements of one module applied independently) is suppressed only where an alternative per-statement model predicts "
         "exactly the observed object.",
@@ -128,7 +128,7 @@ CHECKS = {
         "source opened for writing twice in one run; (b) icontract post-condition on NameSelector.get_name - (directory, lower-cased "
         "stem) -> item injective; (c) recorder on the `anchor` property - an anchor string that stands for two items and occurs on a "
         "page; (d) after the run: distinct page-owning entities have distinct URLs (case-insensitively), the page at an entity's URL "
-        "carries its tracer word, src/<name> equals the defining file. Workload: projects built to collide (same names across modules/"
+        "carries its tracer word, the source-file link of every page serves the defining file. Workload: projects built to collide (same names across modules/"
         "files/directories, letter-case variants, operator/assignment interfaces, generics with explicit bodies, unnamed programs/block "
         "data, submodule named like a module, equal file base names).",
         "Only writes below the entity directories are counted (css/js are touch()ed by design); one known finding (flat src/ copies of "
@@ -209,7 +209,7 @@ CHECKS = {
         "Runtime monitor over repeated real `python -m ford` runs: for each generated multi-file project (equally named procedures, types, "
         "interfaces, modules/submodules, files; generics with several procedures; extension; cross-file calls; markdown link/abbreviation/"
         "footnote definitions in docs; pages; search; graphs embedded or in graph_dir; externalize; sort modes) one reference run is compared "
-        "byte for byte and path for path with runs that differ in exactly one factor: PYTHONHASHSEED, the directory enumeration order "
+        "byte for byte and path for path with runs that differ in exactly one factor: PYTHONHASHSEED, the memory layout of the process (heap noise, PYTHONMALLOC), the directory enumeration order "
         "(os.scandir/os.listdir results permuted inside the FORD process by an injected sitecustomize; every permutation for flat projects "
         "of 3-4 files), parallel 0/2/8, and the prior content of the output directory (same project / another project with pages, graphs, "
         "modules.json, media, stray files). A control variant (same settings, other location) guards the harness' attribution.",
@@ -255,8 +255,9 @@ CHECKS = {
         "exploration",
         "Runtime monitor (metamorphic) on the real fixed-to-free converter + reader + parser: each generated program is written "
         "from one statement list as plain free form and as fixed form (random continuation breaks, every printable non-blank "
-        "non-zero continuation character, labels, C/c/*/! comment lines, blank/short lines also inside continuations, doc comments "
-        "after/inline/before, sequence-field text or long lines) and the canonical entity tables incl. calls and documentation "
+        "non-zero continuation character, labels, C/c/*/! comment lines from column 1 or indented, blank/short lines also inside "
+        "continuations, trailing ! comments on continued lines, doc comments after/inline/before, sequence-field text also after "
+        "comments, long lines, declarations moved into INCLUDEd files of the same form) and the canonical entity tables incl. calls and documentation "
         "words are compared, with fixed_length_limit on and off.",
         "Trusts the layout engine to keep the token sequence (breaks only at blanks outside literals); no tab form; inline docs end "
         "before column 73 when the limit is on.",
